@@ -297,7 +297,7 @@ def _stress(ctx, tbl, known, race, millis, seed, pkg="dnsforward"):
 
 def _first_repo_fn(text):
     frames = re.findall(r"\n(github.com/AdguardTeam/AdGuardHome/internal/\S+)\(", "\n" + text)
-    return _norm_fn(next((f for f in frames if "TestVerifC05" not in f and ".c05" not in f), "?"))
+    return _norm_fn(next((f for f in frames if "TestVerifC05" not in f and ".c05" not in f and "c05Rig" not in f), "?"))
 
 
 def _crash_search(ctx, outdir, seed, out):
